@@ -33,6 +33,7 @@ ASSUMPTIONS = ["documented parameter box (empirical, with a 10x margin on every 
 REQUIRED_COUNTERS = ["parity_checks", "bound_checks", "convexity_checks", "digital_checks", "density_checks", "cos_vs_fft",
                      "cos_vs_blackscholes", "vg_vs_cgmy", "scalar_vs_vector", "price_product_checks"]
 MIN_NONTRIVIAL = {"quick": 25, "thorough": 250}
+THOROUGH_ROUNDS = 3      # the thorough tier runs the generators this many times (different seeds)
 SHARD_TIMEOUT = {"quick": 900, "thorough": 7200}
 
 # tolerances, in units of the spot unless stated (10x the worst deviation observed on the unchanged tree)
